@@ -71,7 +71,7 @@ def bodies(fr: Fresh, fwd: str, back: str, in_case: bool, in_loop: bool) -> list
         [], [op(a)], [("jump", fwd)], [("jump", back)], [("ctrl", "return")], [("ctrl", "end")], [("ctrl", "hold")],
         [op(a), op(b)], [op(a), ("ctrl", "return")], [("with", "actor", C("ACTOR_X"), op(a))],
         [("label", lab), op(a)], [op(a), ("jump", fwd)], [("call", fwd), op(a)],
-        [("with", "actor", 2, ("jump", fwd))], [("with", "object", 2, ("ctrl", "return"))],
+        [("with", "actor", 2, ("jump", fwd))], [("with", "object", 2, ("ctrl", "return"))], [("call", fwd)],
     ]
     if in_case:
         out += [[("ctrl", "break")], [op(a), ("ctrl", "break")]]
@@ -149,6 +149,28 @@ def f1_constructs(tier: str) -> Iterator[tuple[str, dict[str, Any]]]:
                                         ("assign", C("$PERFORMANCE_PROGRESS_LIST"), i, "=", 1, False),
                                         ("assign", C("$PERFORMANCE_PROGRESS_LIST"), i, "=", 0, False),
                                         ("setscn", 3, i, i + 1), ("dmode", i, 2), ("advlog", i)], fwd, back, "middle")
+    # a construct that has been closed inside a loop / case, followed by a control statement of the ENCLOSING loop / case
+    cnd, cnd2 = CONDS[0], CONDS[3]
+    closed = {
+        "while": [("while", False, cnd2, [op("i")])], "whilenot": [("while", True, cnd2, [op("i")])],
+        "for": [("for", ("assign", C("$J"), None, "=", 0, False), ("c_op", C("$J"), "<", 2, False),
+                 ("assign", C("$J"), None, "+=", 1, False), [op("i")])],
+        "forever": [("forever", [op("i"), ("ctrl", "break_loop")])],
+        "switch": [("switch", ("h_var", C("$V")), [(("k_val", 1), [op("i"), ("ctrl", "break")]), (None, [op("j")])])],
+        "ifnot": [("if", True, [cnd2], [op("i")], [(True, [cnd], [op("j")])], None)],
+    }
+    for cname, inner in closed.items():
+        for ctl in ("continue", "break_loop"):
+            tail = [("if", False, [cnd], [("ctrl", ctl)], [], None), op("rest")]
+            yield f"F1.closed.{cname}.{ctl}.forever", wrap([("forever", [op("o")] + inner + tail + [("ctrl", "break_loop")])], fwd, back, "middle")
+            yield f"F1.closed.{cname}.{ctl}.while", wrap([("while", False, cnd, [op("o")] + inner + tail)], fwd, back, "middle")
+            yield (f"F1.closed.{cname}.{ctl}.for",
+                   wrap([("for", ("assign", C("$I"), None, "=", 0, False), ("c_op", C("$I"), "<", 3, False),
+                          ("assign", C("$I"), None, "+=", 1, False), [op("o")] + inner + tail)], fwd, back, "middle"))
+            yield f"F1.closed.{cname}.{ctl}.direct", wrap([("while", True, cnd, inner + [("ctrl", ctl)])], fwd, back, "middle")
+        yield (f"F1.closed.{cname}.break",
+               wrap([("switch", ("h_var", C("$W")), [(("k_val", 1), [op("o")] + inner + [("if", False, [cnd], [("ctrl", "break")], [], None), op("r")]),
+                                                     (("k_val", 2), inner + [("ctrl", "break")]), (None, [op("d")])])], fwd, back, "middle"))
     for neg, eneg, e2neg in itertools.product((False, True), repeat=3):
         for bi in range(nb):
             elifs = [(eneg, [CONDS[4]], B[bi]), (e2neg, [CONDS[8], CONDS[0]], [op("e2")])]
